@@ -171,7 +171,30 @@ def check_D1(ctx, facts, rule='C05.D1'):
         dc = [(bb, t) for bb, t in b.calls() if cname(t) == OS + 'diff']
         import analysis as _an
         good = len(dc) == 1 and dc[0][1]['dest']['l'] in _an._return_locals(b) and not dc[0][1]['dest']['p']
-        ctx.ob(rule, 'hop1|on_diff', good, site(b), 'on_diff returns diff()\'s pair as is' if good else 'on_diff re-assembles the pair returned by diff()')
+        why = 'on_diff does not return the pair computed by diff()'
+        if len(dc) == 1 and not good:
+            # destructure-and-rebuild is fine when the two lists keep their positions and are not touched in between
+            flow = Flow(b)
+            X = dc[0][1]['dest']['l']
+            part = {0: set(), 1: set()}
+            for _b, _j, s in b.assigns():
+                if s['rv']['k'] == 'use':
+                    pl = op_place(s['rv']['op'])
+                    if pl and pl['l'] == X and len(pl['p']) == 1 and isinstance(pl['p'][0], dict) and 'f' in pl['p'][0]:
+                        part[pl['p'][0]['f']] |= flow.forward([s['lhs']['l']], stop=[0])
+            ret = None
+            for _b, _j, s in b.assigns():
+                if s['lhs']['l'] in _an._return_locals(b) and s['rv']['k'] == 'aggregate' and s['rv']['agg'] == 'tuple' and len(s['rv']['ops']) == 2:
+                    ret = [op_local(o) for o in s['rv']['ops']]
+            touched = [s['cs'] for _b, _j, s in b.assigns() if s['rv']['k'] == 'ref' and s['rv']['mut'] and s['rv']['pl']['l'] in (part[0] | part[1])]
+            if ret and ret[0] in part[0] and ret[1] in part[1] and ret[0] not in part[1] and ret[1] not in part[0]:
+                if touched:
+                    why = 'a list computed by diff() is modified (line %s) before on_diff returns it: entries the replica lacks are withheld from the repair' % touched[0]
+                else:
+                    good = True
+            elif ret:
+                why = 'on_diff returns the two lists of diff() in each other\'s position'
+        ctx.ob(rule, 'hop1|on_diff', good, site(b), 'on_diff returns diff()\'s pair, positions kept, lists untouched' if good else why)
     if not od:
         ctx.bad(rule, 'hop1|on_diff', '', 'on_diff not found')
     # (2) get_keyspace_diff: .0 -> modified, .1 -> removed
